@@ -618,7 +618,7 @@ impl Prop for C06 {
         "C06"
     }
     fn rule(&self) -> &'static str {
-        "exhaustive: all instruction sequences of length<=4 over a 14-symbol alphabet (def_cfa*, def_cfa_expression, offset r1/r2, restore r1, undefined, same_value, remember/restore_state, advance, args_size, nop) placed in the CIE, in the FDE and split across both; random: CIE (0..8 instrs, optionally 190..193 distinct register rules) + FDE (0..30 instrs) over every DW_CFA opcode incl. GNU_args_size, AArch64 negate_ra_state under both vendor settings and unknown opcodes, boundary operands, alignment factors incl. 0/negative/huge, address sizes 1/2/4/8, .debug_frame v1/3/4 and .eh_frame, 32/64-bit entries. Oracle: call-frame state machine (cfimodel.rs) with exact capacity accounting; heap storage (4 rows/192 rules) and custom storages (1x1,2x2,4x4,3 rules x5 rows,193x5) judged against the model run with the same capacities; rows contiguous/non-decreasing/ending at the FDE end; unwind_info_for_address at row boundaries. Non-trivial = >=2 rows and (remember_state used, restore with >=2 initial rules, or a storage limit reached/exceeded); distinct by choice string / enumerated sequence. Later additions: .eh_frame CIEs with a zR augmentation whose pointer encoding (unsigned formats of every width) governs the FDE addresses and every DW_CFA_set_loc operand of the FDE."
+        "exhaustive: all instruction sequences of length<=4 over a 14-symbol alphabet (def_cfa*, def_cfa_expression, offset r1/r2, restore r1, undefined, same_value, remember/restore_state, advance, args_size, nop) placed in the CIE, in the FDE and split across both; random: CIE (0..8 instrs, optionally 190..193 distinct register rules) + FDE (0..30 instrs) over every DW_CFA opcode incl. GNU_args_size, AArch64 negate_ra_state under both vendor settings and unknown opcodes, boundary operands, alignment factors incl. 0/negative/huge, address sizes 1/2/4/8, .debug_frame v1/3/4 and .eh_frame, 32/64-bit entries. Oracle: call-frame state machine (cfimodel.rs) with exact capacity accounting; heap storage (4 rows/192 rules) and custom storages (1x1,2x2,4x4,3 rules x5 rows,193x5) judged against the model run with the same capacities; rows contiguous/non-decreasing/ending at the FDE end; unwind_info_for_address at row boundaries. Non-trivial = >=2 rows and (remember_state used, restore with >=2 initial rules, or a storage limit reached/exceeded); distinct by choice string / enumerated sequence. Later additions: .eh_frame CIEs with a zR augmentation whose pointer encoding (unsigned formats of every width) governs the FDE addresses and every DW_CFA_set_loc operand of the FDE. Round-8 additions: no current row (into_current_row) after a failed or exhausted next_row."
     }
     fn assumptions(&self) -> Vec<&'static str> {
         vec![
